@@ -2,7 +2,7 @@
    ONLY statements.  Model/PageDB.v: op_drop (DB.Drop), op_receive with a tombstone file
    (commit size 0, no pages, empty post-checksum), op_open, op_commit_journal after a drop. *)
 From Coq Require Import NArith List Bool.
-Require Import LF.Gen.ConstsGen LF.Model.PageDB LF.Proofs.ChainProofs LF.Proofs.DropProofs.
+Require Import LF.Gen.ConstsGen LF.Model.PageDB LF.Proofs.ChainProofs LF.Proofs.DropProofs LF.Proofs.HistoryProofs LF.Proofs.SqlCheckpointProofs LF.Proofs.ComposeProofs LF.Proofs.ChainHistoryProofs.
 Import ListNotations.
 Local Open Scope N_scope.
 
@@ -46,6 +46,43 @@ Example C15_nonvacuous :
   let p h := mkPg (fl h) 1 false in
   match run_ops (init 2097153) [OWrite 1 (p 1); OCommitJournal 1; ODrop; OOpen; OWrite 1 (p 2); OCommitJournal 1] with
   | Some s => (txid s, map l_commit (ltxdir s), map l_pre (skipn 2 (ltxdir s))) = (3, [1; 0; 1], [flag])
+  | None => False
+  end.
+Proof. vm_compute. reflexivity. Qed.
+
+(* ---- over the histories of C04_history (Props/C04.v: transactions in both journal modes, mode switches, checkpoints,
+   restarts, files from the stream, forwarded files, earlier drops and imports - any number of create / drop cycles) ----
+   After EVERY such history from an empty node, with no premise on its steps: a drop that completes advances the position
+   by exactly one with the empty checksum, leaves no database and no log content, rollback-journal mode, and the kept
+   files still form one chain ending at the new position; a restart right after it reproduces that state; a database
+   recreated under the name gets the next id after the tombstone, its file chained to the empty checksum. *)
+Theorem C15_history_drop_lifecycle : forall lock gs s v s1,
+  run_gsteps (init lock) (fun _ => 0) gs = Some (s, v) -> grun s GDrop = Some s1 ->
+  txid s1 = txid s + 1 /\ chk s1 = flag /\ pageN s1 = 0 /\ dbfile s1 = [] /\ wal_file s1 = [] /\ wal_mode s1 = false /\ Chain s1 /\
+  (exists s2, grun s1 GRestart = Some s2 /\ txid s2 = txid s1 /\ chk s2 = flag /\ pageN s2 = 0 /\ dbfile s2 = [] /\ ltxdir s2 = ltxdir s1) /\
+  (forall commit s3, op_commit_journal s1 commit = (Done, s3) ->
+     txid s3 = txid s + 2 /\ exists f, ltxdir s3 = ltxdir s1 ++ [f] /\ l_pre f = flag /\ l_min f = txid s + 2 /\ l_max f = txid s + 2).
+Proof. exact g_history_drop_lifecycle. Qed.
+
+(* Non-vacuity: create; switch to WAL mode; a WAL commit left in the log; drop (position 4); recreate in rollback-journal
+   mode (position 5); drop again (6) *)
+Example C15_history_nonvacuous :
+  let pg h n := mkPg (fl h) n false in
+  let pw h n := mkPg (fl h) n true in
+  let gs := [GJ (HTx [] [AWrite 1 (pg 11 2); AWrite 2 (pg 12 0)] 2);
+             GSwitch [] [AWrite 1 (pw 13 2)] 2;
+             GW (W2Commit [(2, pw 24 0)] 2)] in
+  match run_gsteps (init 2097153) (fun _ => 0) gs with
+  | Some (s, _) =>
+      match grun s GDrop with
+      | Some s1 =>
+          match run_gsteps s1 (fun _ => 0) [GJ (HTx [] [AWrite 1 (pg 31 1)] 1); GDrop] with
+          | Some (s3, _) => (wal_mode s, match wal_file s with [] => false | _ => true end, txid s, txid s1, pageN s1, txid s3, map l_commit (ltxdir s3)) =
+                            (true, true, 3, 4, 0, 6, [2; 2; 2; 0; 1; 0])
+          | None => False
+          end
+      | None => False
+      end
   | None => False
   end.
 Proof. vm_compute. reflexivity. Qed.
